@@ -190,6 +190,27 @@ func verifyFunc(prog *ssa.Program, fn *ssa.Function, ctr *Contract, all map[stri
 			f.frameObligation(retPoint{reach: anyRet, st: mst}, st0, 0)
 		}
 	}
+	// binding guard: every at-clause and every loop clause must have attached
+	// to something in the body, otherwise the contract is silently vacuous there
+	for callee, cls := range ctr.CallAsserts {
+		for _, c := range cls {
+			found := false
+			for _, o := range e.obls {
+				if o.Kind == "at" && strings.HasSuffix(o.Group, ":"+c.Label) && strings.Contains(o.Group, "/at@") {
+					found = true
+				}
+			}
+			if !found {
+				panic("at-clause [" + c.Label + "] matches no call of " + callee + " in the body")
+			}
+		}
+	}
+	nloops := len(loopOrdinals(fn, backEdges(fn)))
+	for k := range ctr.Loops {
+		if k < 1 || k > nloops {
+			panic(fmt.Sprintf("loop %d clause: the function has %d loops", k, nloops))
+		}
+	}
 	for ri, r := range f.rets {
 		// cover: this return must be reachable under the precondition
 		e.oblige("cover", name+"/cover", fmt.Sprintf("ret%d", ri), "true", fmt.Sprintf("(not %s)", r.reach))
